@@ -258,7 +258,7 @@ func Load(filePath string) (*Cloud, error) {
 	r := bufio.NewReader(f)
 	a, err := Read(r)
 	if err != nil {
-		panic(err)
+		return nil, err
 	}
 
 	return a, err
